@@ -162,11 +162,17 @@ def _bind_in_stmt(s, stmt, source, recv):
         fetch = p.parent
     if fetch is not None and fetch.func.attr == "fetchone":
         fp = getattr(fetch, "parent", None)
-        if isinstance(fp, ast.Subscript) and isinstance(fp.slice, ast.Constant) and isinstance(fp.slice.value, int):
+        idxv = None
+        if isinstance(fp, ast.Subscript):
+            if isinstance(fp.slice, ast.Constant) and isinstance(fp.slice.value, int):
+                idxv = fp.slice.value
+            elif isinstance(fp.slice, ast.UnaryOp) and isinstance(fp.slice.op, ast.USub) and isinstance(fp.slice.operand, ast.Constant):
+                idxv = -fp.slice.operand.value
+        if idxv is not None:
             if fp is value and isinstance(target, ast.Name):
                 nm = [None] * ncols
-                if fp.slice.value < ncols:
-                    nm[fp.slice.value] = target.id
+                if -ncols <= idxv < ncols:
+                    nm[idxv % ncols] = target.id
                 return Binding(s, nm, stmt, "scalar")
             return None
         if fetch is value:
